@@ -4,6 +4,8 @@ import (
 	"encoding/json"
 	"fmt"
 	"os"
+	"path/filepath"
+	"sort"
 	"strconv"
 	"strings"
 	"testing"
@@ -130,6 +132,21 @@ func TestSim(t *testing.T) {
 	if replayDir == "" {
 		replayDir = "/verif/replays"
 	}
+	// regression scenarios (VERIF_REGRESS/<ID>-*.json: scenarios that once failed) are run first, by process 0
+	var regress []any
+	if dir := os.Getenv("VERIF_REGRESS"); dir != "" && res.Proc == 0 {
+		files, _ := filepath.Glob(filepath.Join(dir, id+"-*.json"))
+		sort.Strings(files)
+		for _, f := range files {
+			var rf ReplayFile
+			if b, err := os.ReadFile(f); err == nil && json.Unmarshal(b, &rf) == nil && len(rf.Scenario) > 0 {
+				sc := p.New()
+				if json.Unmarshal(rf.Scenario, sc) == nil {
+					regress = append(regress, sc)
+				}
+			}
+		}
+	}
 	seen := map[string]*VioReport{}
 	digests := map[uint64]struct{}{}
 	sched := map[uint64]struct{}{}
@@ -143,6 +160,10 @@ func TestSim(t *testing.T) {
 		seed := simrt.Hash(res.Seed, propSeedWord(id), uint64(res.Proc), uint64(i))
 		rng := simrt.NewRand(seed)
 		sc := p.Gen(rng, res.Tier)
+		if i < len(regress) {
+			sc = regress[i]
+			res.Probes["regression_scenario_replayed"]++
+		}
 		o := p.Run(t, clone(p, sc), false)
 		res.Runs++
 		if o == nil {
